@@ -80,9 +80,38 @@ C01Clauses ==
          Near(Obs.psivals[IdOf(r, s1) + 1][2 * cfg.nx[s1] + 1], Obs.psivals[IdOf(r, s1 + 1) + 1][1], 2), "all")
 
 --------------------------------------------------------------------------
+(* generic observation pairs: a (from the file) against b (same quantity from the file's other
+   variables / the equilibrium), compared where the named domain says the relation must hold *)
+LastRow(r) == RY0(r) + RNy(r) - 1
+TouchesX(x, y) ==
+  \E X \in XPts :
+    /\ x \in {XFace(X) - 1, XFace(X)}
+    /\ (\E r \in StartsAt(X) : y = RY0(r)) \/ (\E r \in EndsAt(X) : y = LastRow(r))
+InDom(dom, x, y) ==
+  CASE dom = "all" -> TRUE
+    [] dom = "cells" -> ~IsGuard(y)
+    [] dom = "awayX" -> ~TouchesX(x, y)
+    [] dom = "cellsAwayX" -> ~IsGuard(y) /\ ~TouchesX(x, y)
+    [] OTHER -> FALSE
+SameSign(a, b) == (a > 0) = (b > 0) /\ (a < 0) = (b < 0)
+PairOK(p) ==
+  \A x \in XS : \A y \in YS :
+    InDom(p.dom, x, y) =>
+      LET a == p.a[x + 1][y + 1]
+          b == p.b[x + 1][y + 1]
+      IN CASE p.kind = "near" -> Near(a, b, p.bound)
+           [] p.kind = "signratio" -> a # NANV /\ b # NANV /\
+                 (Abs(b) <= 1000 \/ (SameSign(a, b) /\ 2 * Abs(a) >= Abs(b) /\ Abs(a) <= 2 * Abs(b)))
+           [] p.kind = "signratio12" -> a # NANV /\ b # NANV /\
+                 (20 * Abs(b) <= Obs.g12scale[x + 1][y + 1] \/ (SameSign(a, b) /\ 2 * Abs(a) >= Abs(b) /\ Abs(a) <= 2 * Abs(b)))
+           [] OTHER -> FALSE
+PairClauses == \A k \in 1..Len(Obs.pairs) : ClauseAt(Obs.pairs[k].clause, PairOK(Obs.pairs[k]), Obs.pairs[k].loc)
+
+--------------------------------------------------------------------------
 Observe ==
   /\ stage = "file"
   /\ CASE Obs.prop = "C01" -> C01Clauses
+       [] Obs.prop \in {"C02", "C03"} -> PairClauses
        [] OTHER -> TRUE
   /\ stage' = "observed"
   /\ UNCHANGED <<cfg, conn, rects, ygroups, ints, tid>>
